@@ -134,9 +134,7 @@ def scanSbs (toks : List (String × Tok)) (names : List String) : Bool :=
     | _, _ => (infl, hit)
   r.2
 
-def handle (args : List String) : String :=
-  match args with
-  | [n, m, tr] =>
+def handleCore (strict : Bool) (n m tr : String) : String :=
     match n.toNat?, m.toNat? with
     | some n, some m =>
       let c : Cfg := ⟨n, m⟩
@@ -145,12 +143,13 @@ def handle (args : List String) : String :=
       | none => "bad-op"
       | some toks =>
         let a := replay c false toks (init c)
-        let pre := if scanSbs toks names then "race sbs=1 | " else ""
+        let race := !strict && scanSbs toks names
+        let pre := if race then "race sbs=1 | " else ""
         match a.err with
         | some e => s!"{pre}run=bad@{e}"
         | none =>
           let e := endOf c a.s Ev.faithful
-          if scanSbs toks names then s!"{pre}end={e}" else
+          if race then s!"{pre}end={e}" else
           let fused :=
             if a.sbs then "-" else
               let b := replay c true (fuse toks) (init c)
@@ -159,6 +158,15 @@ def handle (args : List String) : String :=
               | none => if endOf c b.s Ev.atomic == e then "ok" else "no"
           s!"run=ok end={e} sbs={if a.sbs then 1 else 0} fused={fused}"
     | _, _ => "bad-op"
+
+/-- `c19 <n> <m> <trace>`: a recorded session (a trace with the
+signal-before-store pattern is only classified, see the harness);
+`c19 <n> <m> <trace> strict`: a forced-schedule replay of a Lean witness,
+compared exactly. -/
+def handle (args : List String) : String :=
+  match args with
+  | [n, m, tr] => handleCore false n m tr
+  | [n, m, tr, "strict"] => handleCore true n m tr
   | _ => "bad-op"
 
 end Drv.C19
